@@ -223,7 +223,8 @@ const VERSIONS: [&str; 5] = ["HTTP/0.9", "HTTP/1.0", "HTTP/1.1", "HTTP/2.0", "HT
 
 pub fn c17(cx: &mut Ctx) {
     let hosts: [&[(&str, &[u8])]; 4] = [&[], &[("host", b"h.test")], &[("host", b"h.test"), ("host", b"i.test")], &[("host", b"h\xfft")]];
-    let cls: [&[(&str, &[u8])]; 8] = [&[], &[("content-length", b"0")], &[("content-length", b"7")], &[("content-length", b"7"), ("content-length", b"7")], &[("content-length", b"-1")], &[("content-length", b"abc")], &[("content-length", b"+5")], &[("content-length", b"\xe9")]];
+    let cls: [&[(&str, &[u8])]; 12] = [&[], &[("content-length", b"0")], &[("content-length", b"7")], &[("content-length", b"7"), ("content-length", b"7")], &[("content-length", b"-1")], &[("content-length", b"abc")], &[("content-length", b"+5")], &[("content-length", b"\xe9")],
+        &[("content-length", b"")], &[("content-length", b"+")], &[("content-length", b"18446744073709551615")], &[("content-length", b"18446744073709551616")]];
     let tes: [&[(&str, &[u8])]; 3] = [&[], &[("transfer-encoding", b"chunked")], &[("transfer-encoding", b"\xff")]];
     let mut r0 = Rng::for_case(cx.seed, 171717);
     for v in VERSIONS {
